@@ -143,6 +143,7 @@ struct State
     std::set<std::string> names;   // crate names in play (raw bytes)
     std::set<std::string> paths;   // relative paths in play
     std::set<int64_t> ids;         // extra ids in play
+    std::optional<dj::track_snapshot> last_snapshot;  // result of the latest "snapshot" op
     void reset()
     {
         tracks.clear();
@@ -152,6 +153,7 @@ struct State
         names.clear();
         paths.clear();
         ids.clear();
+        last_snapshot.reset();
     }
     dj::database& D()
     {
